@@ -1077,5 +1077,17 @@ def gen_P_queue(repo):
     return '\n'.join(out) + '\n'
 
 
+Q_PRELUDE = ('From Coq Require Import ZArith List Bool.', 'From BV Require Import Model.SemProg Model.QueueProg.',
+             'Import ListNotations.', 'Open Scope Z_scope.')
+
+
+def queue_module_text(repo, name):
+    """the definitions of Gen/P_queue.v for `repo`, wrapped as `Module <name>` (for case files that must
+    not depend on coq/Gen, which a concurrent check of another tree may regenerate); the importing
+    file provides the prelude Q_PRELUDE"""
+    lines = [l for l in gen_P_queue(repo).split('\n') if l not in Q_PRELUDE]
+    return 'Module %s.\n%s\nEnd %s.\n' % (name, '\n'.join(lines), name)
+
+
 KERNELS = []
 EXTRA_GENERATORS = {'P_cond': gen_P_cond, 'P_queue': gen_P_queue}
